@@ -107,34 +107,62 @@ XHTML_NS = 'http://www.w3.org/1999/xhtml'
 XML_NS = 'http://www.w3.org/XML/1998/namespace'
 
 
+SVG_NS = 'http://www.w3.org/2000/svg'
+# namespace of each slot for the mixed kinds: 3 = XML root outside XHTML with embedded XHTML elements,
+# 4 = XHTML document with foreign (SVG-namespace) elements on the ancestor chain
+MIXED = {
+    3: {'html': None, 'head': None, 'meta': None, 'body': XHTML_NS, 'div': None, 'p': XHTML_NS, 'iframe': None,
+        'ihtml': XHTML_NS, 'ibody': None, 'ip': XHTML_NS},
+    4: {'html': XHTML_NS, 'head': XHTML_NS, 'meta': XHTML_NS, 'body': XHTML_NS, 'div': SVG_NS, 'p': XHTML_NS,
+        'iframe': SVG_NS, 'ihtml': SVG_NS, 'ibody': XHTML_NS, 'ip': SVG_NS},
+}
+
+
 def build_doc(kind):
-    """kind 0 HTML (html.parser builder), 1 XHTML (xml builder, html namespace), 2 plain XML.
+    """kind 0 HTML (html.parser builder), 1 XHTML (xml builder, html namespace), 2 plain XML, 3 / 4 mixed namespaces.
     Returns soup and the slots html, body, div, p, iframe-inner html, inner p, meta."""
     if kind == 0:
         soup = bs4.BeautifulSoup('', 'html.parser')
-        ns = None
     else:
         soup = bs4.BeautifulSoup('', 'xml')
-        ns = XHTML_NS if kind == 1 else None
-    html = _mk(soup, 'html' if kind != 2 else 'root', soup, ns)
-    head = _mk(soup, 'head', html, ns)
-    meta = _mk(soup, 'meta', head, ns)
-    body = _mk(soup, 'body', html, ns)
-    div = _mk(soup, 'div', body, ns)
-    p = _mk(soup, 'p', div, ns)
+
+    def ns(slot):
+        if kind in MIXED:
+            return MIXED[kind][slot]
+        return XHTML_NS if kind == 1 else None
+    html = _mk(soup, 'html' if kind in (0, 1, 4) else 'root', soup, ns('html'))
+    head = _mk(soup, 'head', html, ns('head'))
+    meta = _mk(soup, 'meta', head, ns('meta'))
+    body = _mk(soup, 'body', html, ns('body'))
+    div = _mk(soup, 'div', body, ns('div'))
+    p = _mk(soup, 'p', div, ns('p'))
     p.append(bs4.NavigableString('x'))
-    iframe = _mk(soup, 'iframe', body, ns)
-    ihtml = _mk(soup, 'html', iframe, ns)
-    ibody = _mk(soup, 'body', ihtml, ns)
-    ip = _mk(soup, 'p', ibody, ns)
+    iframe = _mk(soup, 'iframe' if kind != 4 else 'g', body, ns('iframe'))
+    ihtml = _mk(soup, 'html' if kind != 4 else 'g', iframe, ns('ihtml'))
+    ibody = _mk(soup, 'body', ihtml, ns('ibody'))
+    ip = _mk(soup, 'p', ibody, ns('ip'))
     return soup, dict(html=html, head=head, meta=meta, body=body, div=div, p=p, iframe=iframe, ihtml=ihtml,
                       ibody=ibody, ip=ip)
 
 
-def lang_attr_name(kind):
+XML_LANG = bs4.element.NamespacedAttribute('xml', 'lang', XML_NS)
+
+
+def lang_attr_name(kind, slot='html'):
+    """The attribute that carries the language for the element in `slot`: `lang` for elements in the XHTML namespace
+    (and for everything in plain HTML), xml:lang for other elements of namespace-aware trees."""
+    if kind == 0:
+        return 'lang'
+    if kind == 1:
+        return 'lang'
     if kind == 2:
-        return bs4.element.NamespacedAttribute('xml', 'lang', XML_NS)
-    return 'lang'
+        return XML_LANG
+    return 'lang' if MIXED[kind][slot] == XHTML_NS else XML_LANG
+
+
+def decoy_attr_name(kind, slot):
+    """The other spelling, which must be ignored on that element."""
+    return XML_LANG if lang_attr_name(kind, slot) == 'lang' else 'lang'
 
 
 def ref_language(kind, slots, el, vals, meta_val):
@@ -143,7 +171,7 @@ def ref_language(kind, slots, el, vals, meta_val):
     chain_outer = ['html', 'body', 'div', 'p']
     chain_inner = ['ihtml', 'ibody', 'ip']
     name = [k for k, v in slots.items() if v is el][0]
-    if name in chain_inner and kind != 2:
+    if name in chain_inner and kind in (0, 1):
         chain = chain_inner[:chain_inner.index(name) + 1]
         inner = True
     elif name in chain_inner:
@@ -163,7 +191,7 @@ def ref_language(kind, slots, el, vals, meta_val):
         v = vals.get(k)
         if v is not None:
             return v
-    if kind != 2 and not inner and meta_val:
+    if kind in (0, 1) and not inner and meta_val:
         return meta_val
     return None
 
@@ -172,9 +200,9 @@ SELS = [(':lang(en)', 'en'), (':lang("")', ''), (':lang("*")', '*'), (':lang(fr,
 CSEL = [sv.compile(s) for s, _ in SELS]
 # XHTML + <meta> pragma is outside the claim: on this tree (and upstream) the pragma is only consulted for non-XML
 # documents when a document object is present, and the property text does not settle XHTML.
-COMBOS = part([c for c in itertools.product(range(3), range(len(VALS)), range(len(VALS)), range(len(VALS)),
+COMBOS = part([c for c in itertools.product(range(5), range(len(VALS)), range(len(VALS)), range(len(VALS)),
                                             range(len(VALS)), (None, 'fr', ''))
-               if not (c[0] == 1 and c[5] is not None)])
+               if not (c[0] in (1, 3, 4) and c[5] is not None)])
 NCOMBO = len(COMBOS)
 
 
@@ -190,11 +218,13 @@ def inherit_ok(ci: int, ipv: int) -> bool:
     with notrace():
         kind, vh, vb, vd, vp, meta_val = COMBOS[ci]
         soup, slots = build_doc(kind)
-        an = lang_attr_name(kind)
         vals = {'html': VALS[vh], 'body': VALS[vb], 'div': VALS[vd], 'p': VALS[vp], 'ip': VALS[ipv]}
         for k, v in vals.items():
             if v is not None:
-                slots[k].attrs[an] = v
+                slots[k].attrs[lang_attr_name(kind, k)] = v
+            if kind in MIXED and (ci + len(k)) % 2:
+                # the spelling that does not apply to this element carries a decoy value
+                slots[k].attrs[decoy_attr_name(kind, k)] = 'zz'
         if meta_val is not None:
             # attribute order varies (parsers preserve source order): content before or after http-equiv
             if (ci + ipv) % 2:
